@@ -270,7 +270,10 @@ def main():
         'checks': [CHECKS[p] for p in props if p in CHECKS],
         'notes': 'There are no hook commits (hooks.source_commits is empty, nothing in /repo is guarded). The unguarded "fix:" commits in /repo that '
                  'repair genuine defects found by these checks are ' + ', '.join(commits) + ' (see known_findings.json and DESIGN.md section 12.2). Every check rebuilds its harnesses from /repo/include keyed by a '
-                 'content hash of the tree. Exit codes: 0 held, 1 VIOLATION, 2 machinery could not decide.',
+                 'content hash of the tree. Exit codes: 0 held, 1 VIOLATION, 2 machinery could not decide. Besides the axes named per check, the harnesses share general axes added after the '
+                 'fifth mutation round (DESIGN.md 12.4): value category of arguments (named objects, temporaries, moved objects), ambient state left by earlier calls (errno, global and process locale), '
+                 'results held by reference across a later call, object identity (both operands one object, a library constant vs its copy), and evaluation time (static const from literals, calls at exit). '
+                 'The detection matrix of 184 confirmed seeded changes is in DESIGN.md 12.5 and /verif/seeded.',
         'not_applicable': [{'property_id': p, 'reason': PENDING} for p in props if p not in CHECKS],
     }
     json.dump(m, open('/verif/MANIFEST.json', 'w'), indent=1, ensure_ascii=False)
